@@ -16,8 +16,12 @@ import (
 
 func main() {
 	tier := flag.String("tier", "", "quick|thorough")
+	replay := flag.String("replay", "", "replay file: report only the violation it records")
 	flag.Parse()
 	r := ev.New("C17", *tier, "model_checking")
+	if *replay != "" {
+		r.SetReplay(*replay)
+	}
 	r.SetBudget(8 * time.Minute)
 	if r.Thorough() {
 		r.SetBudget(30 * time.Minute)
